@@ -235,7 +235,7 @@ def run(tier):
         b = hb.harness_bins("cpp", "cpp.cpp", CFGS[tier], tape="words")
         ev.configs = [n for n, _ in b]
         q = tier == "quick"
-        rcrun.run_rc(ev, b, [("c17_ciphers", 50000 if q else 800000, 100), ("c17_hash", 30000 if q else 500000, 100)], finding_key, env_extra={"VERIF_FORK": "1"})
+        rcrun.run_rc(ev, b, [("c17_constants", 300 if q else 3000, 100), ("c17_ciphers", 50000 if q else 800000, 100), ("c17_hash", 30000 if q else 500000, 100)], finding_key, env_extra={"VERIF_FORK": "1"})
     else:
         ev.notes.append("input-level harness skipped: a member it uses does not compile with g++ (reported above)")
     return finish(ev)
